@@ -160,3 +160,33 @@ func Verif_C21_refund() {
 	}
 	verifReach("valid")
 }
+
+// Refund accounting with concrete prices (gas price and modifier from enumerated lists, so the
+// processing price is a constant and the division in the refund path is by a constant): gas limit and
+// refund symbolic. Covers what the abstract-price harness leaves out: reported gas used <= gas limit and
+// the fee recomputed from the reported gas used <= full fee.
+var verifC21Prices = []uint64{1000000000, 1000000099, 1999999999, 123456789123}
+
+func Verif_C21_refundConcretePrice() {
+	ed := &economicsData{minGasLimit: 50000, gasPerDataByte: 1500, minGasPrice: 1000000000, maxGasLimitPerBlock: 1500000000,
+		genesisTotalSupply: big.NewInt(1).Lsh(big.NewInt(1), 80), gasPriceModifier: verifModifiers[verifParam("modifier")]}
+	ed.flagPenalizedTooMuchGas.Set()
+	ed.flagGasPriceModifier.Set()
+	ed.builtInFunctionsCostHandler = &verifBuiltInCost{}
+	tx := &transaction.Transaction{GasPrice: verifC21Prices[verifChoice("price", len(verifC21Prices))], GasLimit: verifU64("gasLimit"), Value: big.NewInt(0), Data: make([]byte, verifChoice("dataLen", 2))}
+	if ed.CheckValidityTxValues(tx) != nil {
+		verifReach("invalid")
+		return
+	}
+	full := ed.ComputeTxFee(tx)
+	move := ed.ComputeMoveBalanceFee(tx)
+	refund := verifBig("refund")
+	verifAssume(refund.Sign() > 0 && big.NewInt(0).Add(move, refund).Cmp(full) <= 0)
+	gasUsed, fee := ed.ComputeGasUsedAndFeeBasedOnRefundValue(tx, refund)
+	verifAssert(big.NewInt(0).Add(fee, refund).Cmp(full) == 0, "refund lowers the fee by exactly the refund")
+	verifAssert(gasUsed <= tx.GasLimit, "reported gas used <= gas limit")
+	if gasUsed <= tx.GasLimit {
+		verifAssert(ed.ComputeTxFeeBasedOnGasUsed(tx, gasUsed).Cmp(full) <= 0, "fee recomputed from the reported gas used <= full fee")
+	}
+	verifReach("valid")
+}
